@@ -84,6 +84,15 @@ def run(c):
             f.write(json.dumps({"text": t, "origin": "mutation"}) + "\n")
         for kind, count, *extra in [("perturb", 300 if q else 4000), ("punch", 200 if q else 3000), ("deforder", 200 if q else 3000), ("corpus", 0)]:
             f.write(vf.gv(["gen-programs", kind, c.seed, count] + list(extra)).stdout)
+    # the same programs laid out over several lines with wide (multi-byte) whitespace as indentation: diagnostics that span
+    # lines, continuation lines that begin with a 2- or 3-byte blank
+    wide = []
+    for line in open(progs):
+        if r.random() < (0.25 if q else 0.5):
+            t = json.loads(line)["text"]
+            w = "".join(r.choice([" ", " ", "\n\u3000", "\u00a0", "\n\u2003 ", "\n  "]) if ch == " " else ch for ch in t)
+            wide.append(json.dumps({"text": w, "origin": "wide-layout"}) + "\n")
+    open(progs, "a").writelines(wide)
     out, evp = os.path.join(d, "lib.json"), os.path.join(d, "lib.ndjson")
     vf.gv(["record-pipeline", progs, out, evp, 200, 0], timeout=3000)
     rl = json.load(open(out))
